@@ -131,10 +131,23 @@ def run(chk):
         rules = [t for t, ok in c15.gen_rules(r, 400) if ok]
         for cut in (0, 1, 5, 40, 150, len(rules)):
             cmds.append(("grown:%d:%d" % (i, cut), "J %s | %s" % (base, " ; ".join(rules[:cut])), "\n".join(rules[:cut])))
+    # a big image: rule references embedded in multipass programs are stored as two 16-bit halves; objects created behind
+    # offset 0x10000 (512 KiB of rules) exercise the upper half
+    for i in range(2 if quick else 12):
+        r = rng.fork(("big", i))
+        base = work / ("big%d.utb" % i)
+        base.write_text("space \\s 0\nletter a 1\nletter b 12\nletter c 14\nletter d 145\n")
+        filler = ["always %s %s" % ("".join(r.choice("abcd") for _ in range(48)), "-".join(tablegen.dots_text(r.range(1, 7)) for _ in range(48)))
+                  for _ in range(2300)]
+        late = ["swapcc lsw ab cd", "swapcd lsd abc 3,6,36", "swapdd lss 1,12 14,145", "grouping lgp ab 3,6",
+                "noback context %lsd %lsd", "noback correct [%lsw] %lsw", "noback pass2 [%lss] %lss", "nofor pass2 [%lss] %lss",
+                "noback correct {lgp *", "noback pass2 [{lgp] ;lgp", "noback pass2 {lgp {lgp}lgp"]
+        bigkey = "grown:big%d" % i
+        cmds.append((bigkey, "J %s | %s" % (base, " ; ".join(filler + late)), "(2300 filler rules) + " + " / ".join(late)))
     outs = common.run_stream(exe, [], [c for _, c, _ in cmds], env=env, timeout=900)
     # the small tables again with the image moved to a fresh block on EVERY allocation (hook): a pointer into the image kept
     # across an allocation is then stale at once (ASan reports the use), instead of only when a growth happens to hit it
-    small = [(k + ":moved", c, t) for k, c, t in cmds if not k.startswith("shipped:")]
+    small = [(k + ":moved", c, t) for k, c, t in cmds if not k.startswith("shipped:") and not k.startswith("grown:big")]
     small += [("shipped:" + n + ":moved", "I " + n, None) for n in ("en-us-comp6.ctb", "de-g0.utb", "en-us-g1.ctb")]
     outs += common.run_stream(exe, ["M 1"], [c for _, c, _ in small], env=env, timeout=1800)
     cmds = cmds + small
